@@ -31,13 +31,19 @@ def Prompt (s : St) : Prop :=
     x.closes = 1
 
 theorem life_all (ops : List Op) : Safe (run ops) ∧ Live (run ops) ∧ Prompt (run ops) := by
-  sorry
+  have h := inv_run ops
+  exact ⟨h.safe_mem, ⟨h.live_served, fun w hw => h.live_reader hw⟩, h.prompt⟩
 
 /-- at quiescence after shutdown every backend ever opened has been closed exactly once -/
 theorem quiescent_closed_once (ops : List Op)
     (hd : (run ops).down = true) (hr : (run ops).readers = []) (hp : (run ops).pending = []) :
     ∀ b ∈ (run ops).backends, b.closes = 1 ∧ b.badUses = 0 := by
-  sorry
+  obtain ⟨hsafe, _, hprompt⟩ := life_all ops
+  intro b hb
+  obtain ⟨i, hi⟩ := List.mem_iff_getElem?.1 hb
+  refine ⟨hprompt i b hi (Or.inl hd) ?_ ?_, (hsafe b hb).2⟩
+  · intro w hw; rw [hr] at hw; cases hw
+  · intro p hp'; rw [hp] at hp'; cases hp'
 
 /-- non-vacuity: a history with readers across a switch, a rejected reload, a timed-out catch-up
 finishing after shutdown; it reaches quiescence with three backends, all closed once -/
